@@ -23,7 +23,22 @@ Definition hyp_add_constraint (s : schema) (tn : string) (k : table_constraint) 
                   (forallb (fun c => has_column c t) cols
                    && negb (rel_exists (build_unique_constraint_name tn cols n) (catalog_of s)))%bool
               | CCheck n _ => negb (bt_mem n (pt_cons (table_cat t)))
-              | _ => false
+              | CForeignKey n fc rt rc _ _ =>
+                  (* A1 on the database as it is: the target has a key over exactly the referenced columns *)
+                  (forallb (fun c => has_column c t) fc
+                   && Nat.eqb (List.length fc) (List.length rc)
+                   && negb (bt_mem (build_foreign_key_name tn fc n) (pt_cons (table_cat t)))
+                   && match find_table rt (catalog_of s) with
+                      | Some RT => (forallb (fun x => has_col x RT) rc
+                                    && match unique_indexes_on RT rc with [] => false | _ => true end)%bool
+                      | None => false
+                      end)%bool
+              | CPrimaryKey auto cols =>
+                  (* no key yet; auto_increment is not honoured by ALTER (K12); {t}_pkey is free *)
+                  (negb auto
+                   && match filter is_pk (t_constraints t) with [] => true | _ => false end
+                   && forallb (fun c => has_column c t) cols
+                   && negb (mem_str (tn +++ "_pkey") (rel_names (catalog_of s) ++ bt_keys (pt_cons (table_cat t)))))%bool
               end)%bool
       end)%bool.
 
@@ -67,9 +82,38 @@ Definition hyp_remove_constraint (s : schema) (tn : string) (k : table_constrain
                   | Some T => String.eqb (pt_name T) tn
                   | None => false
                   end
+              | CUnique _ cols =>
+                  (* found in this table first, and no foreign key needs the unique index (A1 / K15) *)
+                  (match find (fun T => bt_mem (dropped_name tn k) (pt_idx T)) (c_tables (catalog_of s)) with
+                   | Some T => String.eqb (pt_name T) tn
+                   | None => false
+                   end
+                   && match fk_needing_index (catalog_of s) (table_cat t) (mkPi cols true false) with
+                      | None => true
+                      | Some _ => false
+                      end)%bool
               | CCheck _ _ | CForeignKey _ _ _ _ _ _ => true
-              | _ => false
+              | CPrimaryKey _ _ => false
               end)%bool
+      end)%bool.
+
+(* RemoveConstraint of the primary key: ALTER TABLE .. DROP CONSTRAINT {t}_pkey.  Outside K12 (auto_increment), K15
+   (a foreign key needs the key's index), K6 (renamed table: the name is not {t}_pkey); the key columns are declared
+   NOT NULL (A2), because PostgreSQL keeps NOT NULL when the key goes *)
+Definition hyp_remove_pk (s : schema) (tn : string) (k : table_constraint) : bool :=
+  (nodup_str (map t_name s)
+   && match find (fun x => String.eqb (t_name x) tn) s, k with
+      | Some t, CPrimaryKey a cols =>
+          (negb a
+           && match filter is_pk (t_constraints t) with [k'] => constraint_eqb k' k | _ => false end
+           && forallb (fun c => (constraint_eqb c k || negb (mem_str (tn +++ "_pkey") (names_of tn c)))%bool)
+                      (t_constraints t)
+           && forallb (fun x => (negb (mem_str (c_name x) cols) || negb (c_nullable x))%bool) (t_columns t)
+           && match fk_needing_index (catalog_of s) (table_cat t) (mkPi cols true true) with
+              | None => true
+              | Some _ => false
+              end)%bool
+      | _, _ => false
       end)%bool.
 
 Definition needs_backfill (col : column_def) (fw : option string) : bool :=
@@ -78,15 +122,16 @@ Definition needs_backfill (col : column_def) (fw : option string) : bool :=
 
 Definition table_def_eqb (a b : table_def) : bool := dec_b table_def_eq_dec a b.
 
-Definition hyp_add_column (s : schema) (tn : string) (col : column_def) (fw : option string) : bool :=
+(* what both paths of a plain AddColumn need; [bf] says which path build_add_column takes *)
+Definition hyp_add_column_gen (bf : bool) (s : schema) (tn : string) (col : column_def) (fw : option string) : bool :=
   (nodup_str (map t_name s)
    && match find (fun x => String.eqb (t_name x) tn) s with
       | None => false
       | Some t =>
           let t' := mkTable (t_name t) (t_description t) (t_columns t ++ [col]) (t_constraints t) in
           (negb (has_column (c_name col) t)
-           && negb (is_enum_type (c_type col))
-           && negb (needs_backfill col fw)
+           && negb (is_string_enum (c_type col))          (* no type to create: K2 / K9 / K10 are elsewhere *)
+           && Bool.eqb (needs_backfill col fw) bf
            (* re-normalisation promotes nothing (apply.rs:32-60) *)
            && match normalize t' with Ok n => table_def_eqb n t' | Err _ => false end
            (* the engine model knows the rendered type *)
@@ -96,6 +141,9 @@ Definition hyp_add_column (s : schema) (tn : string) (col : column_def) (fw : op
               end
            && match pk_of t with Some (_, cols) => negb (mem_str (c_name col) cols) | None => true end)%bool
       end)%bool.
+Definition hyp_add_column := hyp_add_column_gen false.
+(* the back-fill sequence: ADD COLUMN (nullable); UPDATE; ALTER COLUMN .. TYPE .., ALTER COLUMN .. SET NOT NULL *)
+Definition hyp_add_column_backfill := hyp_add_column_gen true.
 
 (* ---------- DeleteColumn, plain: the column has no enum type and takes nothing with it ---------- *)
 Definition constraint_avoids (cn : string) (k : table_constraint) : bool :=
@@ -119,16 +167,142 @@ Definition hyp_delete_column (s : schema) (tn cn : string) : bool :=
            && forallb (constraint_avoids cn) (t_constraints t))%bool
       end)%bool.
 
+(* ---------- ModifyColumnNullable / Default / Type: one attribute of one column (non-enum paths) ---------- *)
+Definition the_column (s : schema) (tn cn : string) : option (table_def * column_def) :=
+  match find (fun x => String.eqb (t_name x) tn) s with
+  | Some t => match find (fun c => String.eqb (c_name c) cn) (t_columns t) with
+              | Some c => Some (t, c)
+              | None => None
+              end
+  | None => None
+  end.
+Definition column_frame (s : schema) (tn cn : string) : bool :=
+  (nodup_str (map t_name s)
+   && match the_column s tn cn with
+      | Some (t, _) => nodup_str (map c_name (t_columns t))
+      | None => false
+      end)%bool.
+Definition in_pk_of (t : table_def) (cn : string) : bool :=
+  match pk_of t with Some (_, cols) => mem_str cn cols | None => false end.
+(* DROP NOT NULL is refused on a key column (A2) *)
+Definition hyp_modify_nullable (s : schema) (tn cn : string) (nullable : bool) : bool :=
+  (column_frame s tn cn
+   && match the_column s tn cn with
+      | Some (t, _) =>
+          (negb nullable
+           || (negb (in_pk_of t cn)
+               && negb (existsb (fun k => match snd k with KPk cols => mem_str cn cols | _ => false end)
+                                (pt_cons (table_cat t)))))%bool
+      | None => false
+      end)%bool.
+(* SET DEFAULT stores the text modify_column_default.rs renders; the baseline renders the stored default through
+   build_sea_column_def: the two must coincide (they differ e.g. for now() / CURRENT_TIMESTAMP); DROP DEFAULT also drops
+   a serial column's sequence default *)
+Definition hyp_modify_default (s : schema) (tn cn : string) (d : option string) : bool :=
+  (column_frame s tn cn
+   && match the_column s tn cn with
+      | Some (t, c) =>
+          match d with
+          | Some x =>
+              (negb (String.eqb (trim (normalize_enum_default (c_type c) x)) "")
+               && dec_b (option_eq_dec string_dec)
+                        (column_default_text (set_default (Some (DStr x)) c))
+                        (Some (normalize_enum_default (c_type c) x)))%bool
+          | None => negb (pc_autoinc (col_cat t c))
+          end
+      | None => false
+      end)%bool.
+(* ALTER COLUMN .. TYPE between two non-enum types the engine model knows; the auto-increment status is unchanged *)
+Definition hyp_modify_type (s : schema) (tn cn : string) (ty : column_type) : bool :=
+  (column_frame s tn cn
+   && match the_column s tn cn with
+      | Some (t, c) =>
+          (negb (is_enum_type (c_type c)) && negb (is_enum_type ty)
+           && match resolve_type (catalog_of s) (sea_type tn ty) with
+              | Ok (x, false) => String.eqb x (cat_type tn ty)
+              | _ => false
+              end
+           && Bool.eqb (pc_autoinc (col_cat t (set_type ty c))) (pc_autoinc (col_cat t c)))%bool
+      | None => false
+      end)%bool.
+
+(* ---------- CreateTable, outside K1 (CHECK), the enum classes, K10/K11 (name clashes), K17 (target not ready) ---------- *)
+Definition is_check (k : table_constraint) : bool := match k with CCheck _ _ => true | _ => false end.
+Definition is_unique_c (k : table_constraint) : bool := match k with CUnique _ _ => true | _ => false end.
+Definition is_index_c (k : table_constraint) : bool := match k with CIndex _ _ => true | _ => false end.
+(* the column definition CREATE TABLE carries resolves to what catalog_of believes, and has no inline PRIMARY KEY *)
+Definition col_resolves (c : catalog) (n : table_def) (x : column_def) : bool :=
+  let d := create_coldef (t_name n) (filter not_unique_c (t_constraints n)) x in
+  (negb (cd_pk d)
+   && match resolve_type c (cd_type d) with
+      | Ok (ty, auto) => (String.eqb ty (pc_type (col_cat n x)) && Bool.eqb auto (pc_autoinc (col_cat n x)))%bool
+      | Err _ => false
+      end)%bool.
+(* a foreign key of the new table can be created right after the table and its primary key *)
+Definition fk_ready (c : catalog) (n : table_def) (k : table_constraint) : bool :=
+  match k with
+  | CForeignKey _ fc rt rc _ _ =>
+      (Nat.eqb (List.length fc) (List.length rc)
+       && if String.eqb rt (t_name n)
+          then (forallb (fun x => has_column x n) rc
+                && match pk_of n with Some (_, pk) => same_set pk rc | None => false end)%bool
+          else match find_table rt c with
+               | Some T => (forallb (fun x => has_col x T) rc
+                            && match unique_indexes_on T rc with [] => false | _ => true end)%bool
+               | None => false
+               end)%bool
+  | _ => true
+  end.
+Definition created_type_pairs (tn : string) (cols : list column_def) : list (string * list string) :=
+  flat_map (fun st => match st with SCreateType n l => [(n, l)] | _ => [] end) (create_enum_types tn cols []).
+Definition with_enums (c : catalog) (types : list (string * list string)) : catalog :=
+  mkCat (c_tables c) (fold_left (fun m e => bt_insert (fst e) (snd e) m) types (c_enums c)).
+Definition opt_is_none {A} (o : option A) : bool := match o with None => true | Some _ => false end.
+Definition pairs_eqb (a b : list (string * list string)) : bool :=
+  dec_b (list_eq_dec (pair_eq_dec string_dec (list_eq_dec string_dec))) a b.
+Definition hyp_create_table (s : schema) (tn : string) (cols : list column_def) (ks : list table_constraint) : bool :=
+  (negb (has_table tn s)
+   && match normalize (mkTable tn None cols ks) with
+      | Err _ => false
+      | Ok n =>
+          let c := catalog_of s in
+          let nks := t_constraints n in
+          let inames := map fst (flat_map (idx_cat tn) nks) in
+          let cnames := map fst (flat_map (con_cat tn) nks) in
+          let types := table_enums n in
+          ((* the CREATE TYPE statements are exactly the types the baseline believes in; their names are new (K8, K10),
+              distinct, and the labels are distinct string literals (A7) *)
+           pairs_eqb (created_type_pairs tn (t_columns n)) types
+           && nodup_str (map fst types)
+           && forallb (fun x => negb (type_exists x c)) (map fst types)
+           && negb (mem_str tn (map fst types))
+           && forallb (fun e => (forallb is_quoted_literal (snd e) && opt_is_none (first_dup (snd e)))%bool) types
+           && negb (existsb is_check nks)
+           && Nat.leb (List.length (filter is_pk nks)) 1
+           && nodup_str (map c_name (t_columns n))
+           && negb (rel_exists tn c) && negb (type_exists tn c)
+           && forallb (col_resolves (with_enums c types) n) (t_columns n)
+           && forallb (fun k => forallb (fun x => has_column x n) (constraint_columns k)) nks
+           && nodup_str (tn :: inames) && forallb (fun x => negb (rel_exists x c)) inames
+           && nodup_str cnames
+           && forallb (fk_ready c n) nks)%bool
+      end)%bool.
+
 (* which proved lemma (if any) covers a step *)
 Definition sim_hyp (s : schema) (a : action) : bool :=
   match a with
   | RawSql _ => true
   | ModifyColumnComment t c _ => hyp_modify_comment s t c
   | AddConstraint t k => hyp_add_constraint s t k
+  | RemoveConstraint t (CPrimaryKey a cols) => hyp_remove_pk s t (CPrimaryKey a cols)
   | RemoveConstraint t k => hyp_remove_constraint s t k
   | DeleteTable t => hyp_delete_table s t
-  | AddColumn t col fw => hyp_add_column s t col fw
+  | AddColumn t col fw => (hyp_add_column s t col fw || hyp_add_column_backfill s t col fw)%bool
   | DeleteColumn t c => hyp_delete_column s t c
+  | CreateTable t cols ks => hyp_create_table s t cols ks
+  | ModifyColumnNullable t c n _ => hyp_modify_nullable s t c n
+  | ModifyColumnDefault t c d => hyp_modify_default s t c d
+  | ModifyColumnType t c ty _ => hyp_modify_type s t c ty
   | _ => false
   end.
 Fixpoint count_sim (s : schema) (acts : list action) : nat :=
@@ -139,3 +313,29 @@ Fixpoint count_sim (s : schema) (acts : list action) : nat :=
 Definition sim_stats (cs : list pg_case) : list (string * nat) :=
   [("steps_under_a_proved_sim_lemma", fold_left (fun n k => n + count_sim (g_baseline k) (g_actions k)) cs O)].
 
+
+(* per action kind: (steps, steps under a proved lemma) — to see where the proofs still have to go *)
+Definition kind_name (a : action) : string :=
+  match a with
+  | CreateTable _ _ _ => "CreateTable" | DeleteTable _ => "DeleteTable" | AddColumn _ _ _ => "AddColumn"
+  | RenameColumn _ _ _ => "RenameColumn" | DeleteColumn _ _ => "DeleteColumn"
+  | ModifyColumnType _ _ _ _ => "ModifyColumnType" | ModifyColumnNullable _ _ _ _ => "ModifyColumnNullable"
+  | ModifyColumnDefault _ _ _ => "ModifyColumnDefault" | ModifyColumnComment _ _ _ => "ModifyColumnComment"
+  | AddConstraint _ (CPrimaryKey _ _) => "AddConstraint:pk" | AddConstraint _ (CForeignKey _ _ _ _ _ _) => "AddConstraint:fk"
+  | AddConstraint _ _ => "AddConstraint:other"
+  | RemoveConstraint _ (CPrimaryKey _ _) => "RemoveConstraint:pk" | RemoveConstraint _ (CUnique _ _) => "RemoveConstraint:unique"
+  | RemoveConstraint _ _ => "RemoveConstraint:other"
+  | RenameTable _ _ => "RenameTable" | RawSql _ => "RawSql"
+  end.
+Fixpoint bump (k : string) (cov : bool) (m : list (string * (nat * nat))) : list (string * (nat * nat)) :=
+  match m with
+  | [] => [(k, (1, if cov then 1 else 0))]
+  | (k', (a, b)) :: r => if String.eqb k k' then (k', (S a, if cov then S b else b)) :: r else (k', (a, b)) :: bump k cov r
+  end.
+Fixpoint kind_steps (s : schema) (acts : list action) (m : list (string * (nat * nat))) : list (string * (nat * nat)) :=
+  match acts with
+  | [] => m
+  | a :: r => kind_steps (step_schema s a) r (bump (kind_name a) (sim_hyp s a) m)
+  end.
+Definition kind_stats (cs : list pg_case) : list (string * (nat * nat)) :=
+  fold_left (fun m k => kind_steps (g_baseline k) (g_actions k) m) cs [].
